@@ -161,3 +161,8 @@ package quic
 //@ func encodeWithCompression
 //@   props C13
 //@   assert call NewWriter: typeis(arg0, *bytes.Buffer) && fresh(unbox(arg0, *bytes.Buffer))
+// ... and every message, the empty one included, leaves as a terminated DEFLATE stream (what the
+// peer's inflater - or any independent implementation of the framing - expects)
+//@   ghostvar finished bool = false
+//@   after call Writer).Close: finished = (res0 == nil)
+//@   ensures imp(result1 == nil, finished)
